@@ -768,10 +768,10 @@ example : iterate [0x11#64, 0x0#64, 0x8000000000000001#64] 1 = [4, 128, 191] := 
 
 /-! ### 6. `ArenaBitSet` -/
 
-/-- representation invariant of `ArenaBitSet`: the allocation holds `capacity / 64` words, `size ≤ capacity`, and
+/-- representation invariant of `ArenaBitSet`: the allocation holds at least `capacity / 64` words, `size ≤ capacity`, and
 the bits at positions `≥ size` inside the last used word are zero -/
 structure WF (b : BitSet) : Prop where
-  cap_eq : b.words.length * 64 = b.cap
+  cap_le : b.cap ≤ b.words.length * 64
   size_le : b.size ≤ b.cap
   tail_zero : ∀ j, b.size ≤ j → j < 64 * wordsPerBits b.size → bitAt b.words j = false
 
@@ -857,10 +857,10 @@ theorem clearUnused_spec (b : BitSet) (h : b.size ≤ 64 * b.words.length) :
 theorem truncate_spec (b : BitSet) (n : Nat) (hwf : WF b) :
     ∃ b', truncate b n = some b' ∧ WF b' ∧ b'.size = min b.size n ∧ b'.cap = b.cap ∧ b'.data = b.data ∧
       bits b' = (bits b).take n := by
-  have hsz : min b.size n ≤ 64 * b.words.length := by have := hwf.cap_eq; have := hwf.size_le; omega
+  have hsz : min b.size n ≤ 64 * b.words.length := by have := hwf.cap_le; have := hwf.size_le; omega
   obtain ⟨ws, h1, h2, h3⟩ := clearUnused_spec { b with size := min b.size n } hsz
   refine ⟨{ b with words := ws, size := min b.size n }, h1,
-    ⟨by simp [h2]; exact hwf.cap_eq, by have := hwf.size_le; simp; omega, ?_⟩, rfl, rfl, rfl, ?_⟩
+    ⟨by simp [h2]; exact hwf.cap_le, by have := hwf.size_le; simp; omega, ?_⟩, rfl, rfl, rfl, ?_⟩
   · intro j hj1 hj2
     simp only at hj1 hj2 h3 ⊢
     rw [h3, if_pos ⟨hj1, hj2⟩]
@@ -881,14 +881,14 @@ theorem clearAll_spec (b : BitSet) (hwf : WF b) :
       bits b' = List.replicate b.size false := by
   have hwp := wordsPerBits_bounds b.size
   have hn : wordsPerBits b.size ≤ b.words.length := by
-    have := hwf.cap_eq; have := hwf.size_le; unfold wordsPerBits; omega
+    have := hwf.cap_le; have := hwf.size_le; unfold wordsPerBits; omega
   have hb : ∀ j, j < 64 * wordsPerBits b.size →
       bitAt (List.replicate (wordsPerBits b.size) 0#64 ++ b.words.drop (wordsPerBits b.size)) j = false := by
     intro j hj
     rw [bitAt_append, List.length_replicate, if_pos hj, bitAt_replicate, if_pos hj]; simp
   refine ⟨{ b with words := List.replicate (wordsPerBits b.size) 0#64 ++ b.words.drop (wordsPerBits b.size) },
     by simp only [clearAll, hn, if_true], ⟨?_, hwf.size_le, ?_⟩, rfl, rfl, rfl, ?_⟩
-  · simp only [List.length_append, List.length_replicate, List.length_drop]; have := hwf.cap_eq; omega
+  · simp only [List.length_append, List.length_replicate, List.length_drop]; have := hwf.cap_le; omega
   · intro j _ hj2; exact hb j hj2
   · unfold bits
     apply bitsList_eq
@@ -906,16 +906,16 @@ theorem fillAll_spec (b : BitSet) (hwf : WF b) :
       bits b' = List.replicate b.size true := by
   have hwp := wordsPerBits_bounds b.size
   have hn : wordsPerBits b.size ≤ b.words.length := by
-    have := hwf.cap_eq; have := hwf.size_le; unfold wordsPerBits; omega
+    have := hwf.cap_le; have := hwf.size_le; unfold wordsPerBits; omega
   have hlen : (List.replicate (wordsPerBits b.size) ones ++ b.words.drop (wordsPerBits b.size)).length
       = b.words.length := by
     simp only [List.length_append, List.length_replicate, List.length_drop]; omega
   obtain ⟨ws, h1, h2, h3⟩ := clearUnused_spec
     { b with words := List.replicate (wordsPerBits b.size) ones ++ b.words.drop (wordsPerBits b.size) }
-    (by simp only [hlen]; have := hwf.cap_eq; have := hwf.size_le; omega)
+    (by simp only [hlen]; have := hwf.cap_le; have := hwf.size_le; omega)
   simp only at h1 h2 h3
   refine ⟨{ b with words := ws }, by simp only [fillAll, hn, if_true]; exact h1, ⟨?_, hwf.size_le, ?_⟩, rfl, rfl, rfl, ?_⟩
-  · simp only [h2, hlen]; exact hwf.cap_eq
+  · simp only [h2, hlen]; exact hwf.cap_le
   · intro j hj1 hj2
     simp only at hj1 hj2 ⊢
     rw [h3, if_pos ⟨hj1, hj2⟩]
@@ -989,7 +989,7 @@ theorem bits_zip (b' b other : BitSet) (g : Bool → Bool → Bool) (hsize : b'.
     · rw [List.getElem_append_right (by simpa [bitsList_length] using ho)]; simp [ho]
 
 theorem WF.words_len {b : BitSet} (h : WF b) : wordsPerBits b.size ≤ b.words.length := by
-  have := h.cap_eq; have := h.size_le; unfold wordsPerBits; omega
+  have := h.cap_le; have := h.size_le; unfold wordsPerBits; omega
 
 theorem wordsPerBits_mono {a b : Nat} (h : a ≤ b) : wordsPerBits a ≤ wordsPerBits b := by
   unfold wordsPerBits; omega
@@ -1011,7 +1011,7 @@ theorem andNot_spec (b other : BitSet) (hb : WF b) (ho : WF other) :
   obtain ⟨ws, h1, h2, h3⟩ := zipHead_spec (fun x y => x &&& ~~~ y) (fun x y => x && !y)
     (by intro x y m hm; simp [hm]) (wordsPerBits (min b.size other.size)) b.words other.words
     (Nat.le_trans hn1 hb.words_len) (Nat.le_trans hn2 ho.words_len)
-  refine ⟨{ b with words := ws }, by simp [andNot, h1], ⟨by simp only [h2]; exact hb.cap_eq, hb.size_le, ?_⟩,
+  refine ⟨{ b with words := ws }, by simp [andNot, h1], ⟨by simp only [h2]; exact hb.cap_le, hb.size_le, ?_⟩,
     rfl, rfl, rfl, ?_⟩
   · intro j hj1 hj2
     simp only at hj1 hj2 ⊢
@@ -1046,10 +1046,10 @@ theorem or_spec (b other : BitSet) (hb : WF b) (ho : WF other) :
     (by intro x y m hm; simp) (wordsPerBits (min b.size other.size)) b.words other.words
     (Nat.le_trans hn1 hb.words_len) (Nat.le_trans hn2 ho.words_len)
   obtain ⟨ws', g1, g2, g3⟩ := clearUnused_spec { b with words := ws }
-    (by simp only [h2]; have := hb.cap_eq; have := hb.size_le; omega)
+    (by simp only [h2]; have := hb.cap_le; have := hb.size_le; omega)
   simp only at g1 g2 g3
   refine ⟨{ b with words := ws' }, by simp only [or_, h1]; exact g1,
-    ⟨by simp only [g2, h2]; exact hb.cap_eq, hb.size_le, ?_⟩, rfl, rfl, rfl, ?_⟩
+    ⟨by simp only [g2, h2]; exact hb.cap_le, hb.size_le, ?_⟩, rfl, rfl, rfl, ?_⟩
   · intro j hj1 hj2
     simp only at hj1 hj2 ⊢
     rw [g3, if_pos ⟨hj1, hj2⟩]
@@ -1111,7 +1111,7 @@ theorem and_spec (b other : BitSet) (hb : WF b) (ho : WF other) :
       ws.drop (wordsPerBits b.size)) },
     by simp only [and_, h1, h2, hl1, if_true], ⟨?_, hb.size_le, ?_⟩, rfl, rfl, rfl, ?_⟩
   · simp only [List.length_append, List.length_take, List.length_replicate, List.length_drop, h2]
-    have := hb.cap_eq; omega
+    have := hb.cap_le; omega
   · intro j hj1 hj2
     simp only at hj1 hj2 ⊢
     rw [hpt]
@@ -1164,7 +1164,7 @@ PARTIAL: the `_append` slow path (`size = capacity`, reallocation through the ar
 theorem append_spec_partial (a : Arena.State) (b : BitSet) (v : Bool) (hwf : WF b) (hlt : b.size < b.cap) :
     ∃ b', append a b v = some (a, b', Err.ok) ∧ WF b' ∧ b'.size = b.size + 1 ∧ b'.cap = b.cap ∧ b'.data = b.data ∧
       bits b' = bits b ++ [v] := by
-  have hcap := hwf.cap_eq
+  have hcap := hwf.cap_le
   have hq : b.size / 64 < b.words.length := by omega
   have hw : b.words[b.size / 64]? = some b.words[b.size / 64] := by simp [hq]
   have hk : b.size % 64 < 64 := Nat.mod_lt _ (by decide)
@@ -1292,20 +1292,21 @@ theorem growFinish_spec (a : Arena.State) (b1 : BitSet) (ws1 : Words) (idx1 newS
     intro j
     rw [hb3, hb2]
 
-/-- `_resize(new_size, ideal, value)` when no reallocation is needed (`new_size ≤ capacity`):
+/-- `_resize(new_size, ideal, value)` when no reallocation is needed (`new_size ≤ capacity`, and representable):
 `take` when shrinking, `++ replicate` when growing.
-PARTIAL: the reallocating branch (`new_size > capacity`) is not covered (needs facts about `Arena.allocReusable`:
-allocated size a multiple of 8, `≥` the request and `< 2^29` so that `uint32_t(allocated * 8)` does not wrap). -/
+PARTIAL: the reallocating branch (`new_size > capacity`) is covered by `resizeI_full` in `Lemmas/C18Bits2.lean`. -/
 theorem resizeI_spec_partial (a : Arena.State) (b : BitSet) (newSize ideal : Nat) (v : Bool) (hwf : WF b)
-    (hcap : newSize ≤ b.cap) (hnew : newSize < Arena.u32) :
+    (hcap : newSize ≤ b.cap) (hnew' : newSize ≤ 0xFFFFFFC0) :
     ∃ b', resizeI a b newSize ideal v = some (a, b', Err.ok) ∧ WF b' ∧ b'.size = newSize ∧ b'.cap = b.cap ∧ b'.data = b.data ∧
       bits b' = (bits b).take newSize ++ List.replicate (newSize - b.size) v := by
+  have hnew : newSize < Arena.u32 := by unfold Arena.u32; omega
+  have hbig : ¬ newSize > 0xFFFFFFC0 := by omega
   by_cases hle : newSize ≤ b.size
   · obtain ⟨b', h1, h2, h3, h4, hdata, h5⟩ := truncate_spec b newSize hwf
     refine ⟨b', by rw [resizeI_shrink a b newSize ideal v hle, h1]; rfl, h2, by omega, h4, hdata, ?_⟩
     have : newSize - b.size = 0 := by omega
     rw [h5, this]; simp
-  · have hce := hwf.cap_eq
+  · have hce := hwf.cap_le
     have hwpo := wordsPerBits_bounds b.size
     have hwpn := wordsPerBits_bounds newSize
     have hmono : wordsPerBits b.size ≤ wordsPerBits newSize := wordsPerBits_mono (by omega)
@@ -1320,7 +1321,7 @@ theorem resizeI_spec_partial (a : Arena.State) (b : BitSet) (newSize ideal : Nat
       · have e : b.size / 64 = wordsPerBits b.size := by unfold wordsPerBits; omega
         refine ⟨b.words, ?_, rfl, ?_⟩
         · unfold resizeI growFinish
-          simp only [hle, hncap, if_false, hsb, ne_eq, not_true_eq_false, e]
+          simp only [hle, hbig, hncap, if_false, hsb, ne_eq, not_true_eq_false, e]
           rfl
         · intro j
           have : ¬ (b.size ≤ j ∧ j < 64 * wordsPerBits b.size) := by unfold wordsPerBits; omega
@@ -1331,7 +1332,7 @@ theorem resizeI_spec_partial (a : Arena.State) (b : BitSet) (newSize ideal : Nat
         refine ⟨b.words.set (b.size / 64) (b.words[b.size / 64] ||| ((if v then ones else 0#64) <<< (b.size % 64))),
           ?_, by simp, ?_⟩
         · unfold resizeI growFinish
-          simp only [hle, hncap, if_false, hsb, ne_eq, not_false_eq_true, if_true, hw, e]
+          simp only [hle, hbig, hncap, if_false, hsb, ne_eq, not_false_eq_true, if_true, hw, e]
           rfl
         · intro j
           rw [bitAt_set _ _ _ _ hq]
@@ -1380,10 +1381,10 @@ theorem copyFrom_spec_partial (a : Arena.State) (b other : BitSet) (hb : WF b) (
     ∃ b', copyFrom a b other = some (a, b', Err.ok) ∧ WF b' ∧ b'.size = other.size ∧ b'.cap = b.cap ∧ b'.data = b.data ∧
       bits b' = bits other := by
   by_cases h0 : other.size = 0
-  · refine ⟨{ b with size := 0 }, by simp [copyFrom, h0], ⟨hb.cap_eq, Nat.zero_le _, ?_⟩, h0.symm, rfl, rfl, ?_⟩
+  · refine ⟨{ b with size := 0 }, by simp [copyFrom, h0], ⟨hb.cap_le, Nat.zero_le _, ?_⟩, h0.symm, rfl, rfl, ?_⟩
     · intro j _ hj2; simp [wordsPerBits] at hj2
     · simp [bits, bitsList, h0]
-  · have hce := hb.cap_eq
+  · have hce := hb.cap_le
     have hwp := wordsPerBits_bounds other.size
     have hl1 : wordsPerBits other.size ≤ b.words.length := by unfold wordsPerBits; omega
     have hl2 := ho.words_len
